@@ -76,6 +76,21 @@ CHECKS = {
         text="All 2^9 alias maps on a fixed tree x spacing, plus random trees/alias maps/kwargs; labels, kwargs pass-through, spacing handling and unknown-alias rejection are checked.",
         note="draw_networkx replaced by a recorder from the harness side.",
         ref="5 C17"),
+    "C10": dict(
+        technique="Hypothesis project trees x option sets + exhaustive pattern list on a fixed project; scans compared with an option-independent reference of internal/external parts (differential across configurations)",
+        text="Scans under {exclude, include, include+glob patterns, include+regex patterns} are compared with the default scan (internal part identical) and with the set of externals the import statements name minus those the patterns exclude.",
+        note="Ancestors of excluded-only externals are unconstrained; real temporary directories.",
+        ref="5 C10"),
+    "C14": dict(
+        technique="metamorphic renaming: each abstract case is instantiated with a collision-free and an adversarial injective component renaming and the structured outcomes compared (exhaustive on an abstract 5-module tree + Hypothesis)",
+        text="Verdicts, parsed messages incl. layer tags, label maps and scanned module/import sets must be equal up to the renaming.",
+        note="Regex specifications are excluded; renamings are global injective maps on component tokens.",
+        ref="5 C14"),
+    "C15": dict(
+        technique="Hypothesis rule-based state machine over shared evaluables with a fresh-evaluation oracle and a snapshot invariant; permuted iterdir/exclusion order; 8-interpreter PYTHONHASHSEED differential",
+        text="Histories of up to 40 evaluations (new, re-applied, permuted) must leave the evaluables unchanged and agree with fresh evaluations; scans must not depend on directory order; outputs must be identical under 8 hash seeds.",
+        note="Hash seeds and directory orders are sampled, not exhausted.",
+        ref="5 C15"),
 }
 
 NOT_YET = {}
